@@ -595,6 +595,23 @@ func (r *Runner) Run(scripts []*Script) []*ObResult {
 			}(res, name)
 		}
 		wg2.Wait()
+		// final serial pass: z3's strategies use time budgets internally, so under a loaded machine a query that
+		// normally takes seconds can wander off; whatever is still undecided (not refuted) is asked once more, one
+		// query at a time, when nothing else of this run is executing (at most six queries)
+		serial := 0
+		for _, res := range retry {
+			if serial >= 6 {
+				break
+			}
+			if res.OK() || res.Ob.ExpectSat || res.Status == "sat" {
+				continue
+			}
+			serial++
+			rr, _ := r.single(header, res, r.Primary, 2*r.TimeoutMs, false)
+			if rr.status == "unsat" {
+				res.Status, res.Solver, res.Detail = rr.status, r.Primary, rr.detail
+			}
+		}
 	}
 	if r.Cross {
 		r.crossCheck(header, results)
@@ -643,7 +660,7 @@ func (r *Runner) runJob(header string, sc *Script, insts [][]int, base int, only
 				trivial[[2]int{i, t}] = true
 			}
 		}
-		if d := os.Getenv("GOVC_DUMP_JOB"); d != "" && fmt.Sprint(base) == os.Getenv("GOVC_DUMP_BASE") && batch {
+		if d := os.Getenv("GOVC_DUMP_JOB"); d != "" && fmt.Sprint(base) == os.Getenv("GOVC_DUMP_BASE") && (os.Getenv("GOVC_DUMP_FUNC") == "" || os.Getenv("GOVC_DUMP_FUNC") == sc.FuncName) {
 			os.WriteFile(d, []byte(sb.String()), 0o644)
 		}
 		start := time.Now()
